@@ -17,17 +17,17 @@ NOTE = ("Bounded: only the alphabets/bounds printed in evidence.coverage.bounds 
         "the reference model in /verif/inject (documented file format), the overlay import rewriter and shims. "
         "Runs the real code compiled from /repo's working tree at check time; no abstract model, so every explored trace is a trace of the implementation.")
 
-add("C01", E1, "model_checking", "explicit enumeration of record/replay programs over a line-token alphabet against a reference model of the file format, on the real code",
+add("C01", E1, "model_checking", "explicit enumeration of record/replay programs over a line-token alphabet against a reference model of the file format, on the real code; each program is also executed twice more in the same process, after a same-length update, against permuted files, and (interposed-calls pass) with unrelated calls of another test before every call",
     "Every program (<=2 tests, <=2-3 calls, 12-call ordinal family, mixed APIs, pre-existing entries) over the framing-token alphabet is recorded and replayed on the real code; replay must pass, log nothing, perform no mutating fs operation and leave bytes/inodes/mtimes unchanged; disk parsed structurally must equal the model.",
     NOTE, "§6 C01")
-add("C02", E1, "model_checking", "exhaustive enumeration of all ordered (stored, received) pairs over the body alphabet x API x colour x five update-disabled modes",
+add("C02", E1, "model_checking", "exhaustive enumeration of all ordered (stored, received) pairs over the body alphabet x API x colour x five update-disabled modes; pairs recorded under other JSON format options; control-sequence pairs; interposed-calls pass",
     "All ordered pairs of distinct values over the alphabet: replay of a different value must signal exactly one failure, perform no mutating fs operation and leave the directory identical; the recorded value still passes afterwards.",
     NOTE, "§6 C02")
 
 add("C03", E1, "model_checking", "explicit-state breadth-first search over Call/End histories with state de-duplication, each transition executed on the real code and compared with a reference model",
     "BFS over histories of Call(test,value,update?)/End(test) for tests whose names are prefixes/children of each other, two files, re-execution after End; after every transition the outcome, the addressed slot and parse(disk) must equal the model's; plus linear families with 10-12 ordinals.",
     NOTE, "§6 C03")
-add("C04", E1, "model_checking", "exhaustive enumeration of (old,new) value assignments per file layout and API, update run then read-only run on the real code against the model",
+add("C04", E1, "model_checking", "exhaustive enumeration of (old,new) value assignments per file layout and API, update run then read-only run on the real code against the model; interposed-calls pass",
     "Every assignment of value pairs (unchanged/shorter/longer/empty/multi-line/terminator-, template- and header-like) to the entries of each layout, update enabled by env and by option: exactly the changed entries are rewritten to the new values, untouched entries keep their byte spans in place, matching calls perform no write, a read-only run passes without writing.",
     NOTE, "§6 C04")
 add("C05", E1 + " (+E3 twin)", "model_checking", "complete enumeration of the finite mode table (360 call cells + 128 Clean cells), UPDATE_SNAPS taken from the real process environment",
@@ -45,38 +45,38 @@ add("C09", E1, "model_checking", "exhaustive enumeration of directory contents x
 add("C10", E1, "model_checking", "exhaustive enumeration of entry sets x liveness x bodies with EVERY permutation as initial order, Clean;Clean on the real code",
     "Every subset of an id universe (<=4/5 entries), liveness and body assignment, sort on/off, each UPDATE_SNAPS process; per case every permutation: survivors keep their values, natural order when sorting, order independent of the initial permutation, no write when nothing to do, second Clean is a no-op.",
     NOTE, "§6 C10")
-add("C12", E1 + " + " + E2, "model_checking", "exhaustive enumeration of call sequences through one Config (differential against the last call alone) plus every interleaving of concurrent pairs through one Config; free-running -race pass",
+add("C12", E1 + " + " + E2, "model_checking", "exhaustive enumeration of call sequences through one Config (differential against the last call alone, second execution, pairs of Configs with different option sets) plus every interleaving of concurrent pairs through one Config; free-running -race pass",
     "7 option sets x all 155 sequences of <=3 calls over the five entry points through one Config: the last call must write the same files with the same outcome as alone on an independent Config; defaults unchanged; concurrent pairs through one Config under every schedule within the bound give a serial result.",
     NOTE, "§6 C12")
 
 add("C08", E3, "model_checking", "exhaustive enumeration of programs x skip sets x -run patterns x Clean modes, each cell one run of the REAL go test binary of a data-driven module; oracle = trace of what the runner executed",
     "4 programs x every set of <=2 of 8 tests calling snaps.Skip/Skipf/SkipNow x 25 -run patterns x {report, clean} x sort: every entry/file of a test whose calls did not run (filtered by the real matcher or skipped) must survive Clean unchanged and unlisted; name-prefix siblings of skipped tests stay reportable.",
     NOTE + " The real testing package schedules the tests; E3 does not control interleavings.", "§6 C08, §5.3")
-add("C11", E3, "model_checking", "exhaustive enumeration of option x API x call-shape combinations inside real test binaries, one run per (package depth, build mode, cwd, GOROOT)",
+add("C11", E3, "model_checking", "exhaustive enumeration of option x API x call-shape combinations inside real test binaries, one run per (package depth, build mode, cwd, GOROOT, GOFLAGS); every combination executed twice (create, then update)",
     "Dir x Filename (incl. one with a slash) x Ext x 5 APIs x 10 call shapes (direct, closure, helpers in same/other test file, non-test file, other package, 40/70-frame recursion, subtest, goroutine) x depth x {plain, -trimpath flag, -trimpath GOFLAGS} x cwd x GOROOT: each creating call must create exactly one file at the reference location.",
     NOTE, "§6 C11, §5.3")
-add("C13", E1, "exploration", "exhaustive enumeration of text pairs (all line sequences over small alphabets up to a length bound, long-text edit families) checked on difflib's edit script and on the NO_COLOR report",
+add("C13", E1, "exploration", "exhaustive enumeration of text pairs (all line sequences over small alphabets up to a length bound, long-text edit families) checked on difflib's edit script and on the NO_COLOR report; NO_COLOR environment values decided in fresh processes",
     "All ordered pairs of line sequences over {a,b,c} up to length 4/5, over blank/diff-markup/invalid-UTF-8 alphabets, long texts with single and double edits: report empty iff texts byte-identical; header counts = body lines; '-'/'+' lines belong to stored/received; multiset identity; opcodes tile, equal ranges identical, replay yields the second text, hunks omit no change. Depth-1 exploration, exhaustive within the bounds.",
     NOTE, "§6 C13")
-add("C14", E1, "exploration", "exhaustive enumeration of a bounded JSON document grammar x presentations x input forms x format options; invalid inputs by prefix/corruption enumeration against encoding/json",
+add("C14", E1, "exploration", "exhaustive enumeration of a bounded JSON document grammar x presentations x input forms x format options; invalid inputs by prefix/corruption enumeration against encoding/json; interposed-calls pass; free-running -race pass with Go values",
     "Every document of the grammar x 4 whitespace styles x 3 member orders x {string, []byte}, the forms of its standard encoding (Go value, RawMessage, pointer, struct), 24 option sets: identical stored text, same decoded value, valid standalone JSON, no framing-like line; inputs encoding/json rejects fail once, write nothing, keep later slots.",
     NOTE, "§6 C14")
 add("C15", E1, "exploration", "exhaustive enumeration of documents x EVERY member/element path x placeholders x matcher kinds with ordered-tree comparison against a reference replacement",
     "JSON (C14 grammar) and YAML documents x every path (with escapes) x 31 placeholders (incl. strings YAML could misread) x {Any, Type, Custom} x {matcher method, Match* API with string/[]byte}; multi-path matchers and matcher pairs left to right: result valid and equal to the input tree with exactly that node replaced; caller's []byte untouched.",
     NOTE, "§6 C15")
-add("C16", E1, "model_checking", "exhaustive enumeration of documents x masked path sets x matcher kinds x value variants; record(A); replay(A') on the real code",
+add("C16", E1, "model_checking", "exhaustive enumeration of documents x masked path sets x matcher kinds x value variants; record(A); replay(A') on the real code; interposed-calls pass",
     "Documents x every set of <=2 masked paths x {Any, Type, Custom, one reused matcher value} x {MatchJSON, MatchStandaloneJSON, MatchYAML flow/block}: variants differing only under the mask store identical bytes and pass both ways; variants differing at any unmasked leaf (incl. numbers equal as float64 but different as text) fail once and modify nothing.",
     NOTE, "§6 C16")
-add("C17", E1, "model_checking", "exhaustive enumeration of matcher lists over 10 atom kinds x ErrOnMissingPath x mode x slot state x API on the real code",
+add("C17", E1, "model_checking", "exhaustive enumeration of matcher lists over 10 atom kinds x ErrOnMissingPath x mode x slot state x API on the real code; interposed-calls pass",
     "Every list of <=2/3 matcher atoms (satisfied, missing path via Any/Type/Custom on one shared path, wrong Type, failing Custom, unparsable YAML path) x ErrOnMissingPath x {create, UPDATE_SNAPS=true, Update(true), CI} x slot x 3 APIs: one failure naming every failing matcher/path and no satisfied one, no write, next call keeps slot 2; with ErrOnMissingPath(false) same result as without the missing-path matchers.",
     NOTE, "§6 C17")
-add("C18", E1, "model_checking", "exhaustive enumeration of YAML texts over a line alphabet (<=3/4 lines) x endings x input forms; record; replay on the real code; Go values across processes",
+add("C18", E1, "model_checking", "exhaustive enumeration of YAML texts over a line alphabet (<=3/4 lines) x endings x input forms; record; replay on the real code, also after Clean re-sorted the file; Go values across processes and after unrelated calls; interposed-calls pass; free-running -race pass",
     "Every text of <=3/4 lines over 14 YAML line tokens x 4 endings x {string, []byte}: valid ones are stored verbatim (unframe(unescape(body)) == input), replay passes without writing; invalid ones fail once and write nothing; Go values marshal to identical text 21x in-process and in 3 fresh processes.",
     NOTE + " Validity oracle is the YAML library go-snaps uses.", "§6 C18")
-add("C19", E1, "model_checking", "exhaustive enumeration of byte-string values (token sequences incl. CR) x call counts x executions x names x options; record/replay/update on the real code",
+add("C19", E1, "model_checking", "exhaustive enumeration of byte-string values (token sequences incl. CR) x call counts x executions x names x options; record/replay/update on the real code; interposed-calls pass",
     "All byte strings of <=2/3 tokens, Go values, JSON documents; 1..3 standalone calls x 1..3 executions x nested/percent/#01 names x Filename/Ext: file k holds exactly the formatted value of call k, MatchStandaloneJSON files are valid JSON, replay passes, update replaces the file wholesale.",
     NOTE, "§6 C19")
-add("C20", E1 + " + " + E2, "model_checking", "exhaustive enumeration of operation histories over 16 op kinds followed by Clean, and the same operations from 2-3 threads under every schedule within the preemption bound; free-running -race pass",
+add("C20", E1 + " + " + E2, "model_checking", "exhaustive enumeration of operation histories over 16 op kinds followed by Clean, and the same operations from 2-3 threads under every schedule within the preemption bound; one injected file-system fault per call at every position (deviation bound 1); free-running -race pass",
     "Every history of <=2/3 ops (each API x pass/added/updated/failed by mismatch, invalid input, matcher error; Skip/Skipf/SkipNow/child skip) plus length-6 windows, then Clean with 0..2 obsolete items x sort x CI per UPDATE_SNAPS process: exactly one signal per call, summary totals and obsolete lists equal the model's; concurrent histories under every schedule.",
     NOTE, "§6 C20")
 
